@@ -139,10 +139,12 @@ class Cli:
 
     @property
     def version_string(self):
+        # Triple double quotes in arguments would terminate the header string literal
+        command = " ".join(sys.argv).replace('"""', "'''")
         return (
             'r"""\n'
             f'generated by json2python-models v{VERSION} at {datetime.now().ctime()}\n'
-            f'command: {" ".join(sys.argv)}\n'
+            f'command: {command}\n'
             '"""\n'
         )
 
